@@ -186,4 +186,52 @@ def tornAfterPages (s : St) : St :=
   let all := s.log ++ s.buf
   { stable := replay s.stable all, log := all, buf := [] }
 
+/-! ### the shipped checkpoint as it really runs: page writes first, log truncation afterwards
+
+`Ev2` splits the checkpoint into its two durable effects; the machine is *torn* exactly between them
+(`Pager::flush`: force the log, write the dirty pages and the header, then truncate the log — holding the pager lock,
+so nothing is appended in between). -/
+
+inductive Ev2 where
+  | append (r : Rec)
+  | force
+  | ckptPages       -- the log is forced, then dirty pages and header reach the file
+  | ckptTruncate    -- the log is truncated
+  | ack (t : Nat)
+deriving Repr, DecidableEq
+
+structure St2 where
+  s : St
+  torn : Bool
+deriving Repr
+
+def step2 (x : St2) : Ev2 → St2
+  | .append r => if x.torn then x else { x with s := step x.s (.append r) }
+  | .force => if x.torn then x else { x with s := step x.s .force }
+  | .ack t => { x with s := step x.s (.ack t) }
+  | .ckptPages =>
+    if x.torn then x else
+    let all := x.s.log ++ x.s.buf
+    if quiescent all then { s := { stable := replay x.s.stable all, log := all, buf := [] }, torn := true }
+    else { x with s := step x.s .force }
+  | .ckptTruncate =>
+    if x.torn then { s := { x.s with log := [], buf := [] }, torn := false } else x
+
+def run2 (es : List Ev2) : St2 := es.foldl step2 { s := init, torn := false }
+
+/-- what the atomic machine is told when the split machine, in state `x`, sees event `e` -/
+def emit (x : St2) : Ev2 → List Ev
+  | .append r => if x.torn then [] else [.append r]
+  | .force => if x.torn then [] else [.force]
+  | .ack t => [.ack t]
+  | .ckptPages => if x.torn then [] else [.checkpoint]
+  | .ckptTruncate => []
+
+/-- the atomic-checkpoint trace that a split-checkpoint trace stands for -/
+def glueFrom (x : St2) : List Ev2 → List Ev
+  | [] => []
+  | e :: es => emit x e ++ glueFrom (step2 x e) es
+
+def glue (es : List Ev2) : List Ev := glueFrom { s := init, torn := false } es
+
 end AxVerif.Recovery
